@@ -93,6 +93,10 @@ def register(reg):
     k.ens("result-columns-truthful", lambda c: B(truthful_cols(c, c.result.z)))
     k.ens("result-in-an-operand-engine", lambda c: B(z3.Or(eng(c, c.result.z) == eng(c, c.lhs.z), eng(c, c.result.z) == eng(c, c.rhs.z))))
     k.ens("introduces-no-unprocessed-transfer", lambda c: keeps_ready(c, c.result.z, c.lhs.z, c.rhs.z))
+    # C20 at the entry point the factories call (session 4: Relation.chain is under contract and needs these from its callee)
+    is_chain = lambda c: smt.typ(c.self.z) == cid(c, "Chain")  # noqa: E731
+    k.must("chain-of-different-columns-rejected", "ColumnError", lambda c: B(z3.And(is_chain(c), cols(c, c.lhs.z) != cols(c, c.rhs.z))))
+    k.must("chain-across-engines-rejected", "EngineError", lambda c: B(z3.And(is_chain(c), cols(c, c.lhs.z) == cols(c, c.rhs.z), eng(c, c.lhs.z) != eng(c, c.rhs.z))))
     k.raises("EngineError", None)
-    k.raises("ColumnError", None)
+    k.raises("ColumnError", lambda c: B(z3.Not(z3.And(is_chain(c), cols(c, c.lhs.z) == cols(c, c.rhs.z)))))
     k.raises("RelationalAlgebraError", None)
